@@ -720,7 +720,7 @@ def run(ctx, report):
 
 
 
-def size_vote_rule(ctx, R, X):
+def size_vote_rule(ctx, R, X, what='vote'):
     """x86_mn.asm_candidates(self, prefix, name, args_eval) is interpreted statement by statement, with the instruction table answered by the row model, until self.mnemo_mode
     is set; the prefix list and the mode are then read.  IA-32: the operand-size prefix belongs to a line whose general register operand is 16 bits wide; a 16-bit memory operand
     of the selector instructions and a segment register decide nothing."""
@@ -767,6 +767,60 @@ def size_vote_rule(ctx, R, X):
              ('add ax, bx', 'add', [g(0, u16), g(3, u16)], True), ('add eax, ebx', 'add', [g(0, u32), g(3, u32)], False), ('add WORD PTR [ebx], ax', 'add', [mem(3, u16), g(0, u16)], True),
              ('inc WORD PTR [ebx]', 'inc', [mem(3, u16)], True), ('inc DWORD PTR [ebx]', 'inc', [mem(3, u32)], False), ('movzx eax, bx', 'movzx', [g(0, u32), g(3, u16)], False),
              ('movzx ax, bl', 'movzx', [g(0, u16), g(3, afs.u08)], True), ('out dx, eax', 'out', [g(2, u16), g(0, u32)], False), ('out dx, ax', 'out', [g(2, u16), g(0, u16)], True)]
+    if what == 'order':
+        # C03.D13: the encoding a reference assembler produces puts the segment override in front of the mandatory prefix of an MMX/SSE opcode (26 66 0f d4 00);
+        # the prefixes asm_candidates has collected when the operand size is decided must come in that order
+        segn = dict((v_, k_) for k_, v_ in enumerate(E['prefix_seg'])) if isinstance(E.get('prefix_seg'), (list, tuple)) else None
+        pseg = E.get('prefix_seg')
+        if not isinstance(pseg, (dict, list, tuple)):
+            raise AnalysisError('prefix_seg is not statically evaluable')
+        seg_items = list(pseg.items()) if isinstance(pseg, dict) else list(enumerate(pseg))
+
+        def xr(n):
+            return {n: 1, afs.size: afs.xmm, afs.ad: False}
+
+        def xm(n, sg, size=None):
+            return {n: 1, afs.size: size or afs.xmm, afs.ad: True, afs.segm: sg}
+        cases = []
+        for sg, byte in seg_items[:6]:
+            for nm, mand in (('paddq', 0x66), ('addsd', 0xF2), ('movdqu', 0xF3), ('movq', 0xF3), ('addpd', 0x66), ('cvttss2si', 0xF3)):
+                if nm == 'cvttss2si':
+                    ops = [g(1, u32), xm(3, sg, afs.u32)]
+                else:
+                    ops = [xr(0), xm(3, sg, afs.u64 if nm in ('addsd', 'movq') and hasattr(afs, 'u64') else None)]
+                cases.append(('%s xmm0, seg%s:[ebx]' % (nm, sg), nm, ops, (byte, mand)))
+        n_done = 0
+        for text, name, ops, (byte, mand) in cases:
+            me = class_obj(arch, 'x86_mn', 'self')
+            pf = []
+            scope = dict(scope0)
+            scope.update({params[0]: me, params[1]: pf, params[2]: name, params[3]: [dict(o) for o in ops]})
+            ev = Evaluator({})
+            ev.env = scope
+            try:
+                for st in ac.body:
+                    ev.exec_stmts([st], scope)
+                    if 'mnemo_mode' in me.__dict__.get('_attrs', {}):
+                        break
+            except PyRaise as e:
+                R.note('%s: asm_candidates raises %s before the operand size is decided (not judged here)' % (text, e.exc_name))
+                continue
+            except NotConst as e:
+                raise AnalysisError('asm_candidates is outside the evaluable subset before the operand size is decided (`%s`): %s' % (text, e))
+            if byte not in pf or mand not in pf:
+                R.note('%s: prefixes %s (segment or mandatory prefix not collected at this point; not judged here)' % (text, ['%#x' % b for b in pf]))
+                continue
+            n_done += 1
+            inst = 'prefix-order[%s]' % text
+            if pf.index(byte) < pf.index(mand):
+                R.ok(inst, sample='%s: prefixes %s' % (text, ['%#x' % b for b in pf]), nontrivial=True)
+            else:
+                R.violation(inst, 'prefix-order:%s' % name, '`%s`: asm_candidates collects the prefixes %s; the canonical encoding has the segment override %#x in front of the mandatory prefix %#x, so '
+                            'the bytes a reference assembler produces are not among the candidates of their own rendering' % (text, ['%#x' % b for b in pf], byte, mand), where(arch, ac),
+                            witness="asm(str(dis(2e 66 0f d4 00))) lacks 2e 66 0f d4 00")
+        if n_done < 10:
+            raise AnalysisError('prefix order: only %d of %d lines collected both prefixes' % (n_done, len(cases)))
+        return
     for text, name, ops, want66 in lines:
         if not X.lookup.get(name):
             raise AnalysisError('the row model has no mnemonic %r' % name)
